@@ -184,11 +184,14 @@ def prefix_rows(eng, kind):
                 [g("4", "return_column"), (".cfi_personality", [0x9B], "sym:personality"), (".cfi_lsda", [0x1B], "sym:lsda"),
                  g("5", "remember_state")],
                 [g("3", "endproc")]]
+    if kind == "reopened":  # a procedure that starts at the very location where the previous one ends
+        return [[g("0", "startproc"), g("1", "def_cfa")],
+                [g("2", "endproc"), g("3", "startproc"), g("4", "def_cfa"), g("5", "offset")]]
     raise KeyError(kind)
 
 
 PREFIXES = ["none", "start", "cfa", "cfa_expr", "initial_reg", "one_reg", "two_regs", "stack1", "stack2",
-            "personality", "closed"]
+            "personality", "closed", "reopened"]
 
 
 # ---------------------------------------------------------------------------
